@@ -54,7 +54,19 @@ func judge(a agg, v verdict, med func() medianOut, o observed) (fp, detail strin
 		return "price-error:unexpected", fmt.Sprintf("price calculation failed (%s: %s); statement admits %v (%s)", o.Status, o.Err, v.Want, v.Reason)
 	}
 	if !contains(v.Want, o.Status) {
-		return "status:want=" + strings.Join(v.Want, "|") + ":got=" + o.Status + ":" + v.Reason,
+		// fingerprint: the wrongly published status plus the exact boundaries the input sits on (the
+		// discriminating condition of the three comparisons of the status rule)
+		fp = "status:wrongly-" + o.Status
+		if v.UnsupExact {
+			fp += ":unsupported-exactly-half"
+		}
+		if v.HalfExact {
+			fp += ":available-exactly-half"
+		}
+		if v.QuorumExact {
+			fp += ":quorum-exactly-reached"
+		}
+		return fp,
 			fmt.Sprintf("published status %s, statement admits %v (%s); reporting=%s available=%s unsupported=%s floor(quorum*bonded)=%s",
 				o.Status, v.Want, v.Reason, a.total, a.avail, a.unsup, v.FloorTheta)
 	}
@@ -95,36 +107,6 @@ func expectedOf(entries []Entry, now, interval int64, q *big.Rat, bonded *big.In
 		once.Do(func() { m = refMedian(a.fresh) })
 		return m
 	}
-}
-
-// refine tries alternative (wrong) readings of the statement on a mismatch; if the observation conforms
-// to one of them (first match in the given order, only readings whose input really differs are tried)
-// the fingerprint becomes the name of that reading, so that one root cause has one fingerprint.
-func refine(fp string, o observed, alts []altReading) string {
-	if fp == "" || strings.Contains(fp, ":exact-half-crossing") || fp == "price-error:no-fresh-reports-and-zero-power-quorum" {
-		return fp
-	}
-	for _, alt := range alts {
-		if !alt.Applicable {
-			continue
-		}
-		a, v, med := expectedOf(alt.Entries, alt.Now, alt.Interval, alt.Q, alt.Bonded)
-		fp2, _ := judge(a, v, med, o)
-		if (fp2 == "" && len(v.Want) == 1) || (fp2 == "price-error:no-fresh-reports-and-zero-power-quorum") {
-			return alt.Name
-		}
-	}
-	return fp
-}
-
-type altReading struct {
-	Name       string
-	Applicable bool
-	Entries    []Entry
-	Now        int64
-	Interval   int64
-	Q          *big.Rat
-	Bonded     *big.Int
 }
 
 // EntryJSON is the replay-file form of an Entry.
